@@ -650,7 +650,7 @@ def _judge_font(ctx, data, font, label, rnd, nrandom):
             stats["outline-stage%d" % stage] += 1
             if not ok:
                 mech = dict(mech_base, kind="outline", path="user" if exact else "normalized")
-                if gi["kind"] == "composite" and "scaled-offset" not in gi["traits"] and gi["traits"] & {"lsb!=xMin", "left-phantom-varies"}:
+                if gi["kind"] == "composite" and gi["traits"] & {"lsb!=xMin", "left-phantom-varies"}:
                     rec2 = _unshift(rec, hb_rec, float("inf"))
                     if rec2 is not None and fgeom.outlines_match(rec2, hb_rec, TOL)[0]:
                         # equal to HarfBuzz up to a pure horizontal translation: the shift that puts
